@@ -266,10 +266,6 @@ func (r *sharedResource) clearPartitionId(index uint32) {
 
 func (r *sharedResource) provisionBlobs(ctx context.Context) {
 
-	// get a write lock on partitions
-	r.partlock.Lock()
-	defer r.partlock.Unlock()
-
 	// make 1 partition per factor
 	sharedCapacity := atomic.LoadUint32(&r.sharedCapacity)
 	count := int(math.Ceil(float64(sharedCapacity) / float64(r.factor)))
@@ -279,9 +275,13 @@ func (r *sharedResource) provisionBlobs(ctx context.Context) {
 	}
 
 	// copy into a new partition list
+	// NOTE: the write lock is held for the swap only; creating the blobs can take long and must not block
+	// the release of expired partitions or the capacity calculation
+	r.partlock.Lock()
 	partitions := make([]*string, count)
 	copy(partitions, r.partitions)
 	r.partitions = partitions
+	r.partlock.Unlock()
 
 	// emit start
 	r.Emit(ProvisionStartEvent, count, "start blob provisioning", nil)
